@@ -134,8 +134,9 @@ def classify_c12(hist, at, what, slack):
         enters = [r for r in hist if r["ev"] == "enter" and r["t"] <= dec["t"]]
         last = max(enters, key=lambda r: r["t"])
         pops = [r for r in hist if r["ev"] == "pop" and r["t"] <= dec["t"]]
-        if last["a"] >= 0 and last["t"] - last["a"] > eps:
-            return "StaleTurnClock"       # the runtime stamped this message with a time well before its handler ran
+        turns = [r for r in hist if r["ev"] == "turnbegin" and r["t"] <= last["t"]]
+        if last["a"] >= 0 and last["t"] - last["a"] > eps and turns and -3 <= last["a"] - turns[-1]["t"] <= eps:
+            return "StaleTurnClock"       # the runtime stamped this message with the start time of its (long) turn
         if pops and last["t"] >= pops[-1]["t"] - 1:
             return "NoRecheck"            # handled after the manager had taken the actor off the heap, passivated anyway
         return None
